@@ -60,13 +60,28 @@ DefaultDocs ==
          d \in { V("obj", [a |-> StrV("x")]), V("obj", [l |-> ListV(<<ListV(<<IntV(1), IntV(2)>>), ListV(<<>>)>>)]),
                  V("obj", [a |-> StrV("{Q}"), sub |-> V("obj", [a |-> StrV("in{B}ner"), l |-> ListV(<<>>)])]), V("obj", [x \in {} |-> 0]) } }
 
+\* directive uses: an argument left out (the definition's default applies), given, or given as an explicit null - which is
+\* not "left out" when the definition has a default - at type, field, enum value and member level
+UseVariants == { <<>>, <<DU("lim", <<>>)>>, <<DU("lim", <<AV("max", NullV)>>)>>, <<DU("lim", <<AV("max", IntV(3))>>)>>,
+                 <<DU("lim", <<AV("tag", NullV)>>)>>, <<DU("lim", <<AV("tag", StrV("x")), AV("max", NullV)>>)>>,
+                 <<DU("lim", <<AV("l", NullV)>>)>>, <<DU("lim", <<AV("l", ListV(<<>>)), AV("max", IntV(0))>>)>> }
+DLim == DirectiveD("lim", <<ArgDD("max", I, IntV(10)), ArgD("tag", S), ArgDD("l", ListOf(S), ListV(<<StrV("d")>>))>>,
+                   <<"OBJECT", "FIELD_DEFINITION", "ENUM_VALUE", "ENUM", "SCALAR", "UNION", "INTERFACE", "INPUT_OBJECT">>)
+DirUseDocs ==
+  { << DLim, WithDirs(ObjectD("Query", <<>>, <<[FieldD("f", S, <<>>) EXCEPT !.dirs = u2], FieldD("e", Named("E"), <<>>)>>), u1),
+       WithDirs(EnumD("E", <<[EV("P") EXCEPT !.dirs = u2], EV("Q")>>), u1) >> : u1 \in UseVariants, u2 \in UseVariants }
+  \cup { << DLim, ObjectD("Query", <<>>, <<FieldD("f", S, <<>>), FieldD("d", Named("Date"), <<>>), FieldD("u", Named("U"), <<>>)>>),
+            WithDirs(ScalarD("Date"), u), WithDirs(UnionD("U", <<"Query">>), u), WithDirs(InterfaceD("N", <<FieldD("name", S, <<>>)>>), u),
+            WithDirs(InputD("In", <<ArgD("a", S)>>), u) >> : u \in UseVariants }
+
 VARIABLES phase, cs
 pvars == <<phase, cs>>
-PInit == phase = "kind" /\ cs \in {[kind |-> k] : k \in {"desc", "default", "numeric", "bases"}}
+PInit == phase = "kind" /\ cs \in {[kind |-> k] : k \in {"desc", "default", "numeric", "bases", "diruses"}}
 PNext == /\ phase = "kind" /\ phase' = "case"
          /\ cs' \in CASE cs.kind = "desc" -> {[kind |-> "desc", doc |-> v] : v \in UNION {Variants(x, "desc") : x \in DescStrings}}
                       [] cs.kind = "default" -> {[kind |-> "default", doc |-> v] : v \in UNION {Variants(x, "default") : x \in AnyStrings}}
                       [] cs.kind = "numeric" -> {[kind |-> "numeric", doc |-> d] : d \in DefaultDocs}
+                      [] cs.kind = "diruses" -> {[kind |-> "diruses", doc |-> d] : d \in DirUseDocs}
                       [] cs.kind = "bases" -> {[kind |-> "bases", doc |-> Bases[b]] : b \in DOMAIN Bases}
 PSpec == PInit /\ [][PNext]_pvars
 
